@@ -405,57 +405,29 @@ def rule_G(ctx):
     if 'tracklib.core.bbox.Bbox' in ctx.prog.classes:
         absint.classref(ctx, 'tracklib.core.bbox.Bbox', fn)
 
-    class P(orders.PyStub):
-        isa = ('ENUCoords',)
-
-        def __init__(self, x, y, z=0.0):
-            self.x, self.y = float(x), float(y)
-
-        def getX(self):
-            return self.x
-
-        def getY(self):
-            return self.y
-
-        def getZ(self):
-            return 0.0
-
-        def setX(self, v):
-            self.x = v
-
-        def setY(self, v):
-            self.y = v
-
-        def setZ(self, v):
-            pass
-
-        def copy(self):
-            return P(self.x, self.y)
-
-        def distance2DTo(self, o):
-            return math.hypot(self.x - o.x, self.y - o.y)
-
-        distanceTo = distance2DTo
+    # positions are the repository's own ENUCoords objects (their equality has a tolerance the concatenation code may rely on)
+    EN = absint.classref(ctx, 'tracklib.core.obs_coords.ENUCoords', fn)
+    fn['sqrt'], fn['hypot'], fn['atan2'] = math.sqrt, math.hypot, math.atan2
 
     class O(orders.PyStub):
         isa = ('Obs',)
 
         def __init__(self, k, x, y):
             self.k = k
-            self.position = P(x, y)
+            self.position = EN(float(x), float(y), 0.0)
             self.timestamp = None
             self.features = []
 
         def copy(self):
-            o = O(self.k, self.position.x, self.position.y)
+            o = O(self.k, self.position.fields['E'], self.position.fields['N'])
             o.features = list(self.features)
             return o
 
         def distance2DTo(self, o):
-            return self.position.distance2DTo(o.position)
+            return self.position.call('distance2DTo', o.position)
 
         def distanceTo(self, o):
-            return self.position.distance2DTo(o.position)
+            return self.position.call('distanceTo', o.position)
 
     def seg_dist(p, a, b):
         (px, py), (ax, ay), (bx, by) = p, a, b
@@ -477,8 +449,10 @@ def rule_G(ctx):
         'two fixes': [(0, 0), (4, 3)],
         'three collinear fixes': [(0, 0), (1, 1), (2, 2)],
         'spike': [(0, 0), (10, 0), (10.5, 7), (11, 0), (21, 0)],
+        'sub-millimetre scale (a receiver standing still: distinct fixes 0.05 mm apart)': [(0, 0), (0.00004, 0.00003), (0.00008, 0), (0.00012, 0.00005), (0.00016, 0), (0.0002, 0.00004)],
+        'a fix 0.05 mm after the farthest one': [(0, 0), (10, 0), (10, 5), (10.00003, 5.00004), (10, 0.5), (20, 0)],
     }
-    eps_list = (0.25, 2.0, 6.0, 11.0, 25.0, 1.0e6)
+    eps_list = (0.00001, 0.25, 2.0, 6.0, 11.0, 25.0, 1.0e6)
     found = {}
     n_cases = 0
     for algo, f in (('douglas_peucker', fd), ('visvalingam', fv)):
@@ -502,7 +476,7 @@ def rule_G(ctx):
                     found.setdefault((algo, 'subsequence'), (f, 'returns a subsequence of the input observations in their original order that contains the first and the last one',
                                                              dict(case, **{'indices kept': kept})))
                     continue
-                src_now = [(o.k, o.position.x, o.position.y, len(o.features)) for o in t.fields['_Track__POINTS']]
+                src_now = [(o.k, o.position.fields['E'], o.position.fields['N'], len(o.features)) for o in t.fields['_Track__POINTS']]
                 if src_now != [(k, float(p_[0]), float(p_[1]), 0) for k, p_ in enumerate(pts)] or t.call('getListAnalyticalFeatures'):
                     found.setdefault((algo, 'source'), (f, 'leaves the input track as it was (no fix removed, no scratch feature left)',
                                                         dict(case, **{'input track after': src_now, 'features listed': t.call('getListAnalyticalFeatures')})))
